@@ -51,14 +51,24 @@ type inlHelper struct {
 }
 
 type inlSite struct {
-	h        *inlHelper
-	call     *ast.CallExpr
-	stmt     ast.Stmt // statement to rewrite (the if statement for an if-init site)
-	inner    ast.Stmt // the assign / expr / return statement that contains the call
-	file     *ast.File
-	filename string
-	fn       *ast.FuncDecl
-	next     ast.Stmt // the statement that follows stmt in its list, if any
+	h          *inlHelper
+	call       *ast.CallExpr
+	stmt       ast.Stmt // statement to rewrite (the if statement for an if-init site)
+	inner      ast.Stmt // the assign / expr / return statement that contains the call
+	file       *ast.File
+	filename   string
+	fn         *ast.FuncDecl
+	next       ast.Stmt             // the statement that follows stmt in its list, if any
+	replEnd    token.Pos            // set when the rewrite also consumes the following statement
+	rest       []ast.Stmt           // the statements that follow stmt in its list
+	siblings   *[]*inlSite          // all sites of the enclosing function (to keep consumed statements free of other sites)
+	loopLabels map[token.Pos]string // labels given to enclosing loops by earlier rewrites of this file
+	preEdits   *[]inlEdit           // extra insertions (loop labels) requested by the rewrite
+}
+
+type inlEdit struct {
+	at   token.Pos
+	text string
 }
 
 func declKey(pkgPath string, fd *ast.FuncDecl) string {
@@ -213,11 +223,19 @@ func inlineNewHelpers(pkgs []*packages.Package, src func(string) []byte) (map[st
 			if text == nil {
 				continue
 			}
-			// bottom-up so that offsets stay valid
+			// all replacements are generated from the original text, then applied bottom-up
 			sort.Slice(ss, func(i, j int) bool { return ss[i].stmt.Pos() > ss[j].stmt.Pos() })
 			okFile := true
+			type fileEdit struct {
+				a, b int
+				text []byte
+			}
+			var edits []fileEdit
+			loopLabels := map[token.Pos]string{}
+			var pre []inlEdit
 			for _, s := range ss {
 				counter++
+				s.loopLabels, s.preEdits = loopLabels, &pre
 				repl, err := genInline(p, s, counter, src)
 				if err != nil {
 					notes = append(notes, s.h.key+": not inlined ("+err.Error()+")")
@@ -226,11 +244,32 @@ func inlineNewHelpers(pkgs []*packages.Package, src func(string) []byte) (map[st
 					break
 				}
 				a, b := p.Fset.Position(s.stmt.Pos()).Offset, p.Fset.Position(s.stmt.End()).Offset
+				if s.replEnd.IsValid() {
+					b = p.Fset.Position(s.replEnd).Offset
+				}
 				if a < 0 || b > len(text) || a > b {
 					okFile = false
 					break
 				}
-				text = append(append(append([]byte{}, text[:a]...), repl...), text[b:]...)
+				edits = append(edits, fileEdit{a, b, repl})
+			}
+			for _, pe := range pre {
+				o := p.Fset.Position(pe.at).Offset
+				edits = append(edits, fileEdit{o, o, []byte(pe.text)})
+			}
+			sort.SliceStable(edits, func(i, j int) bool { return edits[i].a > edits[j].a })
+			for i := 1; i < len(edits) && okFile; i++ {
+				// edits[i] lies before edits[i-1]: it must end before that one starts (a label insertion at the start of
+				// a loop that contains a replaced statement is fine, an insertion inside a replaced range is not)
+				if edits[i].b > edits[i-1].a {
+					notes = append(notes, "overlapping rewrites in "+fname+": file left as written")
+					okFile = false
+				}
+			}
+			if okFile {
+				for _, ed := range edits {
+					text = append(append(append([]byte{}, text[:ed.a]...), ed.text...), text[ed.b:]...)
+				}
 			}
 			if !okFile {
 				continue
@@ -300,7 +339,7 @@ func findSites(info *types.Info, helpers map[types.Object]*inlHelper, f *ast.Fil
 			}
 			if c, h := simple(st); c != nil {
 				supported[c] = true
-				*sites = append(*sites, &inlSite{h: h, call: c, stmt: st, inner: st, file: f, filename: fname, fn: fd, next: next})
+				*sites = append(*sites, &inlSite{h: h, call: c, stmt: st, inner: st, file: f, filename: fname, fn: fd, next: next, rest: list[li+1:], siblings: sites})
 			}
 			if iff, ok := st.(*ast.IfStmt); ok && iff.Init != nil {
 				if c, h := simple(iff.Init); c != nil {
@@ -551,7 +590,12 @@ func genInline(p *packages.Package, s *inlSite, n int, src func(string) []byte) 
 			retFmt = func(es string, _ []string, _ []ast.Expr) string { return "return " + es }
 		}
 	case *ast.IfStmt:
-		if as, ok := s.inner.(*ast.AssignStmt); ok && as.Tok == token.DEFINE && st.Else == nil && terminating(st.Body) && nres > 0 && len(as.Lhs) == nres {
+		if as, ok := s.inner.(*ast.AssignStmt); ok && (as.Tok == token.DEFINE || as.Tok == token.ASSIGN) && st.Else == nil && terminating(st.Body) && nres > 0 && len(as.Lhs) == nres {
+			isAssign := as.Tok == token.ASSIGN
+			op := " := "
+			if isAssign {
+				op = " = "
+			}
 			lhsOK := true
 			var lhsNames []string
 			for _, l := range as.Lhs {
@@ -564,6 +608,12 @@ func genInline(p *packages.Package, s *inlSite, n int, src func(string) []byte) 
 			}
 			if lhsOK {
 				noteNames(st.Body, st.Cond)
+				if isAssign {
+					// the assigned variables belong to the caller: helper locals of the same name are renamed
+					for _, nm := range lhsNames {
+						handlerNames[nm] = true
+					}
+				}
 				lhs := strings.Join(lhsNames, ", ")
 				cond := textOf(csrc, st.Cond.Pos(), st.Cond.End())
 				body := textOf(csrc, st.Body.Pos(), st.Body.End())
@@ -580,6 +630,9 @@ func genInline(p *packages.Package, s *inlSite, n int, src func(string) []byte) 
 					if parts != nil && ti >= 0 {
 						switch nilClassOf(exprs[ti]) {
 						case "nil":
+							if isAssign {
+								return "{ " + lhs + " = " + typedParts(parts, exprs) + "; break " + pre + "L }"
+							}
 							return "{ " + blanks(nres) + " = " + typedParts(parts, exprs) + "; break " + pre + "L }"
 						case "nonnil":
 							use := ""
@@ -588,23 +641,84 @@ func genInline(p *packages.Package, s *inlSite, n int, src func(string) []byte) 
 									use += "_ = " + nm + "; "
 								}
 							}
-							return "{ " + lhs + " := " + typedParts(parts, exprs) + "; " + use + body + " }"
+							return "{ " + lhs + op + typedParts(parts, exprs) + "; " + use + body + " }"
 						}
 					}
 					if parts != nil {
 						es = typedParts(parts, exprs)
 					}
-					return "{ if " + lhs + " := " + es + "; " + cond + " " + body + "\nbreak " + pre + "L }"
+					return "{ if " + lhs + op + es + "; " + cond + " " + body + "\nbreak " + pre + "L }"
 				}
 			}
 		}
 	case *ast.AssignStmt:
-		if nx, ok := s.next.(*ast.IfStmt); ok && s.stmt == s.inner && nx.Init == nil && nx.Else == nil && terminating(nx.Body) && nres > 0 && len(st.Lhs) == nres {
-			tested := testedOf(nx.Cond)
-			lhsOK := tested != nil
-			ti := -1
+		if rt, ok := s.next.(*ast.ReturnStmt); ok && s.stmt == s.inner && nres > 0 && len(st.Lhs) == nres && st.Tok == token.ASSIGN {
+			// `LHS = h(..)` followed by `return E`: every return of the helper assigns and returns; `X != nil` /
+			// `X == nil` on an assigned X is folded when the returned value is known to be nil or not
+			lhsOK := true
+			var lhsNames []string
+			for _, l := range st.Lhs {
+				id, ok := l.(*ast.Ident)
+				if !ok {
+					lhsOK = false
+					break
+				}
+				lhsNames = append(lhsNames, id.Name)
+			}
+			hasCall := false
+			ast.Inspect(rt, func(nd ast.Node) bool {
+				switch nd.(type) {
+				case *ast.CallExpr, *ast.FuncLit:
+					hasCall = true
+				}
+				return true
+			})
+			if lhsOK && !hasCall {
+				noteNames(rt)
+				for _, nm := range lhsNames {
+					handlerNames[nm] = true
+				}
+				lhs := strings.Join(lhsNames, ", ")
+				retText := textOf(csrc, rt.Pos(), rt.End())
+				// single result `X != nil` / `X == nil`
+				ti, isNeq := -1, false
+				if len(rt.Results) == 1 {
+					if be, ok := ast.Unparen(rt.Results[0]).(*ast.BinaryExpr); ok && (be.Op == token.NEQ || be.Op == token.EQL) {
+						if id, ok := be.X.(*ast.Ident); ok {
+							if nl, ok := be.Y.(*ast.Ident); ok && nl.Name == "nil" && info.Uses[nl] == types.Universe.Lookup("nil") {
+								for i, nm := range lhsNames {
+									if nm == id.Name && nm != "_" {
+										ti, isNeq = i, be.Op == token.NEQ
+									}
+								}
+							}
+						}
+					}
+				}
+				mode = "assignret"
+				s.replEnd = rt.End()
+				retFmt = func(es string, parts []string, exprs []ast.Expr) string {
+					if parts != nil && ti >= 0 {
+						switch nilClassOf(exprs[ti]) {
+						case "nil":
+							return fmt.Sprintf("{ %s = %s; return %v }", lhs, es, !isNeq)
+						case "nonnil":
+							return fmt.Sprintf("{ %s = %s; return %v }", lhs, es, isNeq)
+						}
+					}
+					return "{ " + lhs + " = " + es + "; " + retText + " }"
+				}
+			}
+		}
+		if mode == "temps" && s.stmt == s.inner && nres > 0 && len(st.Lhs) == nres {
+			// `LHS = h(..)` followed by guard statements `if <test of an LHS variable> { ..; return | continue | panic }`:
+			// the guards are replicated at every return of the helper (and removed after the call), so that each path of
+			// the helper goes where the caller sends it, as it did before the lines were extracted.  Tests of values
+			// that the helper returns as literals (nil, an error constructor, true, false) are folded.
+			lhsOK := true
 			var decl bytes.Buffer
 			var lhsNames []string
+			lhsIdx := map[string]int{}
 			for i, l := range st.Lhs {
 				id, ok := l.(*ast.Ident)
 				if !ok {
@@ -612,32 +726,215 @@ func genInline(p *packages.Package, s *inlSite, n int, src func(string) []byte) 
 					break
 				}
 				lhsNames = append(lhsNames, id.Name)
-				if tested != nil && id.Name == tested.Name {
-					ti = i
+				if id.Name != "_" {
+					lhsIdx[id.Name] = i
 				}
 				if st.Tok == token.DEFINE && id.Name != "_" && info.Defs[id] != nil {
 					fmt.Fprintf(&decl, "var %s %s\n_ = %s\n", id.Name, ts(sig.Results().At(i).Type()), id.Name)
 				}
 			}
-			if lhsOK && ti >= 0 {
-				noteNames(nx.Body)
+			type follower struct {
+				iff  *ast.IfStmt
+				idx  int    // index of the tested LHS variable
+				kind string // "nonnil" (X != nil), "nil" (X == nil), "true" (X), "false" (!X)
+				body string
+				cond string
+			}
+			var fols []follower
+			// the enclosing loop of the call site, for `continue`
+			var loop ast.Stmt
+			var loopLabel string
+			{
+				var stack []ast.Node
+				ast.Inspect(s.fn.Body, func(nd ast.Node) bool {
+					if nd == nil {
+						stack = stack[:len(stack)-1]
+						return true
+					}
+					if nd == ast.Node(s.stmt) {
+						for i := len(stack) - 1; i >= 0; i-- {
+							switch x := stack[i].(type) {
+							case *ast.ForStmt, *ast.RangeStmt:
+								if loop == nil {
+									loop = x.(ast.Stmt)
+									if i > 0 {
+										if ls, ok := stack[i-1].(*ast.LabeledStmt); ok {
+											loopLabel = ls.Label.Name
+										}
+									}
+								}
+							case *ast.FuncLit:
+								if loop == nil {
+									i = -1 // a loop outside the closure is not the target of its continue statements
+								}
+							case *ast.SwitchStmt, *ast.TypeSwitchStmt, *ast.SelectStmt:
+								// continue still binds to the loop; nothing to do
+							}
+						}
+					}
+					stack = append(stack, nd)
+					return true
+				})
+			}
+			needLabel := false
+			if lhsOK {
+				for _, fs := range s.rest {
+					iff, ok := fs.(*ast.IfStmt)
+					if !ok || iff.Init != nil || iff.Else != nil || len(iff.Body.List) == 0 {
+						break
+					}
+					// the test
+					f := follower{iff: iff, idx: -1}
+					cond := ast.Unparen(iff.Cond)
+					switch c := cond.(type) {
+					case *ast.BinaryExpr:
+						if id, ok := c.X.(*ast.Ident); ok && (c.Op == token.NEQ || c.Op == token.EQL) {
+							if nl, ok := c.Y.(*ast.Ident); ok && nl.Name == "nil" && info.Uses[nl] == types.Universe.Lookup("nil") {
+								if i, ok := lhsIdx[id.Name]; ok {
+									f.idx = i
+									f.kind = map[token.Token]string{token.NEQ: "nonnil", token.EQL: "nil"}[c.Op]
+								}
+							}
+						}
+					case *ast.Ident:
+						if i, ok := lhsIdx[c.Name]; ok {
+							f.idx, f.kind = i, "true"
+						}
+					case *ast.UnaryExpr:
+						if id, ok := ast.Unparen(c.X).(*ast.Ident); ok && c.Op == token.NOT {
+							if i, ok := lhsIdx[id.Name]; ok {
+								f.idx, f.kind = i, "false"
+							}
+						}
+					}
+					if f.idx < 0 {
+						break
+					}
+					// the body: ends in return / panic / continue, contains no other jump, no closure and no call site
+					// of a helper that is being inlined
+					okBody := true
+					usesContinue := false
+					var conts []*ast.BranchStmt
+					ast.Inspect(iff.Body, func(nd ast.Node) bool {
+						switch x := nd.(type) {
+						case *ast.BranchStmt:
+							if x.Tok == token.CONTINUE && x.Label == nil && loop != nil {
+								usesContinue = true
+								conts = append(conts, x)
+							} else {
+								okBody = false
+							}
+						case *ast.FuncLit, *ast.LabeledStmt, *ast.ForStmt, *ast.RangeStmt:
+							okBody = false
+						}
+						return true
+					})
+					switch last := iff.Body.List[len(iff.Body.List)-1].(type) {
+					case *ast.ReturnStmt:
+					case *ast.BranchStmt:
+						if last.Tok != token.CONTINUE {
+							okBody = false
+						}
+					case *ast.ExprStmt:
+						c, ok := last.X.(*ast.CallExpr)
+						id, ok2 := ast.Unparen(func() ast.Expr {
+							if ok {
+								return c.Fun
+							}
+							return last.X
+						}()).(*ast.Ident)
+						if !ok || !ok2 || id.Name != "panic" {
+							okBody = false
+						}
+					default:
+						okBody = false
+					}
+					if s.siblings != nil {
+						for _, o := range *s.siblings {
+							if o != s && o.filename == s.filename && o.stmt.Pos() >= iff.Pos() && o.stmt.End() <= iff.End() {
+								okBody = false
+							}
+						}
+					}
+					if !okBody {
+						break
+					}
+					// body text, with `continue` bound to the caller's loop by label
+					bt := []byte(textOf(csrc, iff.Body.Pos(), iff.Body.End()))
+					if usesContinue {
+						needLabel = true
+						lab := loopLabel
+						if lab == "" {
+							lab = s.loopLabels[loop.Pos()]
+						}
+						if lab == "" {
+							lab = fmt.Sprintf("inlLoop%d", off(loop.Pos()))
+						}
+						sort.Slice(conts, func(i, j int) bool { return conts[i].Pos() > conts[j].Pos() })
+						for _, c := range conts {
+							o := off(c.End()) - off(iff.Body.Pos())
+							bt = append(append(append([]byte{}, bt[:o]...), []byte(" "+lab)...), bt[o:]...)
+						}
+					}
+					f.body = string(bt)
+					f.cond = textOf(csrc, iff.Cond.Pos(), iff.Cond.End())
+					fols = append(fols, f)
+				}
+			}
+			if lhsOK && len(fols) > 0 {
+				if needLabel && loopLabel == "" {
+					if s.loopLabels[loop.Pos()] == "" {
+						lab := fmt.Sprintf("inlLoop%d", off(loop.Pos()))
+						s.loopLabels[loop.Pos()] = lab
+						*s.preEdits = append(*s.preEdits, inlEdit{loop.Pos(), lab + ":\n"})
+					}
+				}
+				for _, f := range fols {
+					noteNames(f.iff.Body)
+				}
 				for _, nm := range lhsNames {
 					handlerNames[nm] = true
 				}
 				lhs := strings.Join(lhsNames, ", ")
-				body := textOf(csrc, nx.Body.Pos(), nx.Body.End())
 				mode = "assign"
 				predecl = decl.String()
-				retFmt = func(es string, parts []string, exprs []ast.Expr) string {
-					if parts != nil {
-						switch nilClassOf(exprs[ti]) {
-						case "nil":
-							return "{ " + lhs + " = " + es + "; break " + pre + "L }"
-						case "nonnil":
-							return "{ " + lhs + " = " + es + "; " + body + " }"
+				s.replEnd = fols[len(fols)-1].iff.End()
+				boolLit := func(e ast.Expr) string {
+					if id, ok := ast.Unparen(e).(*ast.Ident); ok && (id.Name == "true" || id.Name == "false") {
+						if _, isConst := info.Uses[id].(*types.Const); isConst && info.Uses[id].Parent() == types.Universe {
+							return id.Name
 						}
 					}
-					return "{ " + lhs + " = " + es + "; if " + tested.Name + " != nil " + body + "\nbreak " + pre + "L }"
+					return ""
+				}
+				retFmt = func(es string, parts []string, exprs []ast.Expr) string {
+					var sb strings.Builder
+					sb.WriteString("{ " + lhs + " = " + es + "\n")
+					for _, f := range fols {
+						verdict := "" // "taken", "skipped" or unknown
+						if parts != nil {
+							switch f.kind {
+							case "nonnil", "nil":
+								if c := nilClassOf(exprs[f.idx]); c != "" {
+									verdict = map[bool]string{true: "taken", false: "skipped"}[c == f.kind]
+								}
+							case "true", "false":
+								if c := boolLit(exprs[f.idx]); c != "" {
+									verdict = map[bool]string{true: "taken", false: "skipped"}[c == f.kind]
+								}
+							}
+						}
+						switch verdict {
+						case "skipped":
+							continue
+						case "taken":
+							sb.WriteString(f.body + "\n}")
+							return sb.String()
+						}
+						sb.WriteString("if " + f.cond + " " + f.body + "\n")
+					}
+					sb.WriteString("break " + pre + "L }")
+					return sb.String()
 				}
 			}
 		}
@@ -744,7 +1041,7 @@ func genInline(p *packages.Package, s *inlSite, n int, src func(string) []byte) 
 		fmt.Fprintf(&b, "var %s %s = %s\n_ = %s\n", tmp, t, textOf(csrc, a.Pos(), a.End()), tmp)
 		binds = append(binds, bind{pnames[i], t, tmp})
 	}
-	if mode == "direct" {
+	if mode == "direct" || mode == "assignret" {
 		b.WriteString("{\n")
 	} else {
 		fmt.Fprintf(&b, "%sL:\nfor {\n", pre)
@@ -896,7 +1193,7 @@ func genInline(p *packages.Package, s *inlSite, n int, src func(string) []byte) 
 		// falling off the end of a function with named results cannot happen (the compiler demands a return)
 		_ = named
 	}
-	if mode == "direct" {
+	if mode == "direct" || mode == "assignret" {
 		b.WriteString("\n}\n")
 	} else {
 		fmt.Fprintf(&b, "\nbreak %sL\n}\n", pre)
@@ -905,7 +1202,7 @@ func genInline(p *packages.Package, s *inlSite, n int, src func(string) []byte) 
 		return nil, fmt.Errorf("type of package %s is not importable by name in the calling file", qualFail)
 	}
 	switch mode {
-	case "direct", "handler", "assign":
+	case "direct", "handler", "assign", "assignret":
 		// the statement itself is gone: its work is done at every return of the inlined body
 		return b.Bytes(), nil
 	}
@@ -1015,6 +1312,38 @@ func detectRenames(pkgs []*packages.Package) map[string]string {
 	for old, cs := range match {
 		if len(cs) == 1 && usedNew[cs[0]] == 1 {
 			out[cs[0]] = old
+		}
+	}
+	// a reviewed function that is gone while a new function of the same package carries its name (a method turned
+	// into a function of other parameters, or the reverse): it is the same function as far as the who-may tables and
+	// anchors are concerned; its parameters go by their current names
+	bareOf := func(k string) string { return k[strings.LastIndex(k, ".")+1:] }
+	pkgOf := func(k string) string { return k[:strings.Index(k, ".")] }
+	taken := map[string]bool{}
+	for _, o := range out {
+		taken[o] = true
+	}
+	for old := range baselineFuncs {
+		if current[old] || taken[old] {
+			continue
+		}
+		var cs []string
+		for _, c := range added {
+			if _, done := out[c.key]; !done && bareOf(c.key) == bareOf(old) && pkgOf(c.key) == pkgOf(old) {
+				cs = append(cs, c.key)
+			}
+		}
+		if len(cs) == 1 {
+			n := 0
+			for o2 := range baselineFuncs {
+				if !current[o2] && !taken[o2] && bareOf(o2) == bareOf(old) && pkgOf(o2) == pkgOf(old) {
+					n++
+				}
+			}
+			if n == 1 {
+				out[cs[0]] = old
+				taken[old] = true
+			}
 		}
 	}
 	// several functions of one signature renamed together (slashRedelegations/slashUndelegations): pair them by name
